@@ -498,27 +498,27 @@ fn c17_q_float_wrap_panics_nonpositive_upper() {
 // vector lifts: the vector forms apply the scalar function per lane (src/vec.rs Wrap/Clamp/IsBetween)
 // ------------------------------------------------------------------------------------------------
 
-/// A scalar whose Clamp/IsBetween/Wrap functions are cheap for the SAT solver, pairwise different,
-/// and depend on every argument asymmetrically. The vector lifts are generic in `T` (they only call
-/// `T`'s scalar functions), so any lane-routing or wrong-function mistake in a lift shows up with
-/// this `T` for some input — and all inputs are symbolic. (Comparing two copies of the real 8-bit
-/// division circuits lane by lane is what CBMC is bad at: > 4 min per harness.)
+/// A scalar whose Clamp/Wrap functions only RECORD which function was applied to which operands
+/// (an "opaque term": no arithmetic, so results are equal iff the same function was applied to the
+/// same lane values). The vector lifts are generic in `T` (they only call `T`'s scalar functions), so
+/// any lane-routing or wrong-function mistake in a lift shows up with this `T` — for all lane values.
+/// (Comparing two copies of the real 8-bit division circuits lane by lane is what CBMC is bad at:
+/// > 4 min per harness; the real i8/u8 instantiations follow below with concrete wrap bounds.)
 #[derive(Clone, Copy, PartialEq, Debug)]
-pub struct Lane(pub u8);
-fn mix(a: u8, b: u8, c: u8, k: u8) -> u8 {
-    a.wrapping_mul(3).wrapping_add(b.wrapping_mul(5)).wrapping_add(c.wrapping_mul(7)).wrapping_add(k)
-}
+pub struct Lane { pub v: u8, pub a: u8, pub b: u8, pub op: u8 }
+#[allow(non_snake_case)]
+fn Lane(v: u8) -> Lane { Lane { v, a: 0, b: 0, op: 0 } }
 impl Clamp for Lane {
-    fn clamped(self, lower: Lane, upper: Lane) -> Lane { Lane(mix(self.0, lower.0, upper.0, 1)) }
+    fn clamped(self, lower: Lane, upper: Lane) -> Lane { Lane { v: self.v, a: lower.v, b: upper.v, op: 1 } }
 }
 impl IsBetween for Lane {
     type Output = bool;
-    fn is_between(self, lower: Lane, upper: Lane) -> bool { mix(self.0, lower.0, upper.0, 2) & 8 != 0 }
+    fn is_between(self, lower: Lane, upper: Lane) -> bool { (self.v ^ (lower.v >> 1) ^ (upper.v >> 2)) & 1 == 1 }
 }
 impl Wrap for Lane {
-    fn wrapped(self, upper: Lane) -> Lane { Lane(mix(self.0, upper.0, 0, 3)) }
-    fn wrapped_between(self, lower: Lane, upper: Lane) -> Lane { Lane(mix(self.0, lower.0, upper.0, 4)) }
-    fn pingpong(self, upper: Lane) -> Lane { Lane(mix(upper.0, self.0, 0, 5)) }
+    fn wrapped(self, upper: Lane) -> Lane { Lane { v: self.v, a: upper.v, b: 0, op: 3 } }
+    fn wrapped_between(self, lower: Lane, upper: Lane) -> Lane { Lane { v: self.v, a: lower.v, b: upper.v, op: 4 } }
+    fn pingpong(self, upper: Lane) -> Lane { Lane { v: self.v, a: upper.v, b: 0, op: 5 } }
 }
 
 /// All five lifts, both bound forms, on one vector type; every lane compared through its field.
@@ -528,7 +528,7 @@ macro_rules! lane_lift_body {
         let lo = $V::<Lane> { $($f: Lane(kani::any())),+ };
         let hi = $V::<Lane> { $($f: Lane(kani::any())),+ };
         let (sl, su) = (Lane(kani::any()), Lane(kani::any()));
-        kani::cover!(true $(&& v.$f.0 != hi.$f.0)+, "every lane differs from its bound");
+        kani::cover!(true $(&& v.$f.v != hi.$f.v)+, "every lane differs from its bound");
         let c = v.clamped(lo, hi);
         let b = v.is_between(lo, hi);
         let w = v.wrapped(hi);
